@@ -231,3 +231,84 @@ Fixpoint deep_chain (n : nat) : entries :=
 Example walk_rejects_deep :
   fst (run (verify_opts 0 true (deep_chain 200))) = Err E_PROOF_DEPTH.
 Proof. vm_compute. reflexivity. Qed.
+
+(* ---------- the depth counter must be carried through ALL three child positions ---------- *)
+(* for the real walk, chains nested through the leaf, left or right position beyond the limit
+   are rejected with the depth error, for both versions *)
+Example walk_rejects_deep_every_position :
+  fst (run (verify_opts 1 true (chain_pos 1 0 200))) = Err E_PROOF_DEPTH /\
+  fst (run (verify_opts 1 true (chain_pos 1 1 200))) = Err E_PROOF_DEPTH /\
+  fst (run (verify_opts 1 true (chain_pos 1 2 200))) = Err E_PROOF_DEPTH /\
+  fst (run (verify_opts 0 true (chain_pos 0 1 200))) = Err E_PROOF_DEPTH /\
+  fst (run (verify_opts 0 true (chain_pos 0 2 200))) = Err E_PROOF_DEPTH /\
+  match fst (run (verify_opts 1 true (chain_pos 1 0 128))) with Ok p => ptr_nesting p | _ => 0 end = 128.
+Proof. repeat split; vm_compute; reflexivity. Qed.
+
+(* the variant that does not count the leaf position is NOT depth-bounded: a chain of 300
+   internal nodes nested through the leaf position passes the depth check at every level and
+   exhausts any fuel proportional to maxProofDepth; with enough fuel it is accepted with
+   nesting 300 > maxProofDepth + 1 *)
+Lemma walk_leaf_same_depth_unbounded_l :
+  fst (run (walk_leaf_same_depth (walk_fuel 0) 1 (chain_pos 1 0 300) 0 0)) = Err E_FUEL /\
+  match fst (run (walk_leaf_same_depth 400 1 (chain_pos 1 0 300) 0 0)) with
+  | Ok (_, p) => ptr_nesting p | _ => 0 end = 300 /\
+  fst (run (walk (walk_fuel 0) 1 (chain_pos 1 0 300) 0 0)) = Err E_PROOF_DEPTH.
+Proof.
+  repeat split; vm_compute; reflexivity.
+Qed.
+
+(* accepted subtrees are never nested deeper than maxProofDepth (through any position) *)
+Lemma walk_nesting_spec : forall f v es idx depth s,
+  v <= 1 -> depth <= maxProofDepth + 1 ->
+  match walk f v es idx depth s with
+  | (Ok (_, p), _) => depth + ptr_nesting p <= maxProofDepth
+  | _ => True
+  end.
+Proof.
+  induction f as [|f IH]; intros v es idx depth s Hv Hd; [cbn; exact I|].
+  cbn [walk].
+  destruct (elen es <=? idx); [exact I|].
+  destruct (maxProofDepth <? depth) eqn:H2; [exact I|].
+  unfold eindex. destruct (nth_error es (N.to_nat idx)) as [e|]; [|exact I].
+  rewrite bind_lift_ok. destruct e as [entry|]; [|cbn; lia].
+  destruct (glen entry =? 0) eqn:H3; [exact I|].
+  rewrite index_ok by lia. rewrite bind_lift_ok.
+  destruct (nth (N.to_nat 0) entry 0 =? proofEntryFull).
+  - unfold slice_from. rewrite slice_ok by lia. rewrite bind_lift_ok. rewrite bind_unfold.
+    destruct (node_unmarshal (sl entry 1 (glen entry)) s) as [[n|e|] s1]; try exact I.
+    destruct n as [l|nd]; [cbn; lia|].
+    rewrite bind_unfold.
+    assert (match (if v =? 0 then ret (idx + 1, oleaf_ptr (ileaf nd))
+                   else if v =? 1 then walk f v es (idx + 1) (depth + 1)
+                   else lift Panic) s1 with
+            | (Ok (_, lf), _) => ptr_nesting lf = 0 \/ depth + 1 + ptr_nesting lf <= maxProofDepth
+            | _ => True end) as Hlf.
+    { destruct (v =? 0).
+      - cbn [ret]. left. destruct (ileaf nd); reflexivity.
+      - destruct (v =? 1); [|exact I].
+        pose proof (IH v es (idx + 1) (depth + 1) s1 Hv ltac:(lia)) as H.
+        destruct (walk f v es (idx + 1) (depth + 1) s1) as [[[p' lf]|e|] s2]; try exact I. right. exact H. }
+    destruct ((if v =? 0 then ret (idx + 1, oleaf_ptr (ileaf nd))
+               else if v =? 1 then walk f v es (idx + 1) (depth + 1)
+               else lift Panic) s1) as [[[pos1 lf]|e|] s2]; try exact I.
+    rewrite bind_unfold.
+    pose proof (IH v es pos1 (depth + 1) s2 Hv ltac:(lia)) as HL.
+    destruct (walk f v es pos1 (depth + 1) s2) as [[[pos2 pl]|e|] s3]; try exact I.
+    rewrite bind_unfold.
+    pose proof (IH v es pos2 (depth + 1) s3 Hv ltac:(lia)) as HR.
+    destruct (walk f v es pos2 (depth + 1) s3) as [[[pos3 pr]|e|] s4]; try exact I.
+    cbn [ret ptr_nesting]. lia.
+  - destruct (nth (N.to_nat 0) entry 0 =? proofEntryHash); [|exact I].
+    unfold slice_from. rewrite slice_ok by lia. rewrite bind_lift_ok.
+    unfold hash_unmarshal.
+    destruct (negb (glen (sl entry 1 (glen entry)) =? HashSize)); [exact I|].
+    cbn [ret bind ptr_nesting]. lia.
+Qed.
+
+Lemma verify_nesting_bounded_l : forall v es idx s idx' p s' fuel,
+  v <= LatestProofVersion ->
+  walk fuel v es idx 0 s = (Ok (idx', p), s') -> ptr_nesting p <= maxProofDepth.
+Proof.
+  intros v es idx s idx' p s' fuel Hv E.
+  pose proof (walk_nesting_spec fuel v es idx 0 s Hv ltac:(lia)) as H. rewrite E in H. lia.
+Qed.
